@@ -215,16 +215,17 @@ def dir_alias(b, keys):
     if b['kind'] != 'dir':
         return None
     from kv.cachemon import dir_fname
-    seen = {}
+    groups = {}
     for k in keys:
         try:
             fn = dir_fname(k)
         except Exception:
             continue
-        if fn in seen and seen[fn] != k:
-            return (seen[fn], k)
-        seen.setdefault(fn, k)
-    return None
+        g = groups.setdefault(fn, [])
+        if not any(type(x) is type(k) and x == k for x in g):
+            g.append(k)
+    out = [k for g in groups.values() if len(g) > 1 for k in g]     # every key that shares its name with another
+    return out or None
 
 
 class Run03(object):
